@@ -21,6 +21,12 @@ static std::string render(const Reply &r) {
   if (r.form == "long") return c + " " + std::string(6000, 't') + "\r\n";
   if (r.form == "bin") return c + " \xff\xfe" + std::string(1, '\0') + "bin\r\n";
   if (r.form == "lf") return c + " lf only\n";
+  if (r.form == "nonnum") return "abc hello\r\n";
+  if (r.form == "short") return "2";
+  if (r.form == "empty") return "\r\n";
+  if (r.form == "huge") return c + " " + std::string(200000, 'h') + "\r\n";
+  if (r.form == "manylines") { std::string s; for (int i = 0; i < 3000; i++) s += c + "-l\r\n"; return s + c + " end\r\n"; }
+  if (r.form == "dashonly") return c + "-\r\n";
   return c + " ok\r\n";
 }
 
@@ -64,6 +70,26 @@ struct WorldSO : World, Net {
     std::string name = name0; for (auto &c : name) c = (char)tolower((unsigned char)c); while (!name.empty() && name.back() == '.') name.pop_back();
     auto f = zone.fail.find(name);
     if (f != zone.fail.end()) { if (f->second == "soft") { k->note_fault("dns_soft"); herr = TRY_AGAIN; return -1; } if (f->second == "hard") { k->note_fault("dns_hard"); herr = HOST_NOT_FOUND; return -1; } }
+    if (f != zone.fail.end() && f->second.compare(0, 8, "garbled:") == 0) {
+      // hostile resolver: cut records, compression loops, absurd counts, oversized packets
+      k->note_fault("dns_garbled"); std::string kind = f->second.substr(8);
+      std::string g(12, '\0'); g[2] = (char)0x81; g[3] = (char)0x80; g[5] = 1; g[7] = 3;
+      std::string q; put_name(q, name); q.push_back((char)(type >> 8)); q.push_back((char)type); q.push_back(0); q.push_back(1);
+      if (kind == "loop") { g += q; g += std::string("\xc0\x0c", 2); g.push_back((char)(type >> 8)); g.push_back((char)type); g += std::string("\0\1\0\0\0\0\0\4", 8); g += std::string("\xc0", 1) + std::string(1, (char)(g.size() + 1)) ; g += std::string("\xc0", 1) + std::string(1, (char)(g.size() - 1)); }
+      else if (kind == "cut") { g += q; std::string rr2; put_name(rr2, name); rr2.push_back((char)(type >> 8)); rr2.push_back((char)type); rr2 += std::string("\0\1\0\0\0\0\0\x40", 8); rr2 += "xx"; g += rr2.substr(0, rr2.size() / 2 + (size_t)(k->clock % 7)); }
+      else if (kind == "counts") { g[4] = (char)0xff; g[5] = (char)0xff; g[6] = (char)0xff; g[7] = (char)0xff; g += q; }
+      else if (kind == "big") { g += q; for (int z = 0; z < 200; z++) { put_name(g, name); g.push_back((char)(type >> 8)); g.push_back((char)type); g += std::string("\0\1\0\0\0\0\0\4", 8); g += std::string("\x0a\x01\x01", 3); g.push_back((char)z); } g[6] = 0; g[7] = (char)200; }
+      else if (kind == "rdlen") { g += q; put_name(g, name); g.push_back((char)(type >> 8)); g.push_back((char)type); g += std::string("\0\1\0\0\0\0\xff\xff", 8); g += "abcd"; g[7] = 1; }
+      else if (kind == "trunc") { g[2] = (char)0x83; g += q; }
+      else if (kind == "edge") {   // a packet that ends inside the fixed part of its last record, right at the end of the 512-byte answer buffer
+        g += q; int cnt = 0; auto rec = [&](size_t rdlen) { std::string x = std::string("\xc0\x0c", 2); x.push_back((char)(type >> 8)); x.push_back((char)type); x += std::string("\0\1\0\0\0\0", 6); x.push_back((char)(rdlen >> 8)); x.push_back((char)rdlen); x += std::string(rdlen, '\x0a'); return x; };
+        size_t target = 502; size_t pad = (target - g.size()) % 16; g += rec(4 + pad); cnt++;
+        while (g.size() + 16 <= target) { g += rec(4); cnt++; }
+        std::string last = rec(4); size_t keep = 2 + (size_t)(k->clock % 9); g += last.substr(0, keep); cnt++;
+        g[6] = (char)(cnt >> 8); g[7] = (char)cnt; }
+      else { g += std::string(40, '\xc0'); }
+      pkt = g; return 0;
+    }
     std::string ans; int n = 0;
     auto rr = [&](int ty, const std::string &rdata) { put_name(ans, name); ans.push_back((char)(ty >> 8)); ans.push_back((char)ty); ans.push_back(0); ans.push_back(1); ans.append(4, '\0'); ans.push_back((char)(rdata.size() >> 8)); ans.push_back((char)rdata.size()); ans += rdata; n++; };
     if (type == T_MX) { auto it = zone.mx.find(name); if (it != zone.mx.end()) for (auto &m : it->second) { std::string rd; rd.push_back((char)(m.first >> 8)); rd.push_back((char)m.first); put_name(rd, m.second); rr(T_MX, rd); } }
@@ -193,7 +219,7 @@ struct WorldSO : World, Net {
 
   void finish() override {
     res->nontrivial = accepted > 0 || !connect_order.empty();
-    if (!remote_done) { violate(c09 ? "C09.remote-hung" : "C06.remote-hung", "qmail-remote still running"); return; }
+    if (!remote_done) { violate(c09 ? "C09.remote-hung" : c06 ? "C06.remote-hung" : "C20.remote-hung", "qmail-remote still running"); return; }
     std::vector<std::string> segs; parse_out(segs);
     std::string outs; for (auto &s : segs) outs += "[" + printable(s, 70) + "]";
     if (c06 && !relay) check_c06(outs);
